@@ -53,6 +53,7 @@ type Report struct {
 	TagStores  int      `json:"tag_stores"`
 	LockSites  int      `json:"lock_sites"`
 	OnceSites  int      `json:"once_sites"`
+	PoolSites  int      `json:"pool_sites"`
 	Degraded   []string `json:"degraded"`
 	YieldOnly  bool     `json:"yield_only"`
 	FilesTotal int      `json:"files"`
@@ -356,6 +357,12 @@ func (fc *fileCtx) rewriteSyncCall(c *ast.CallExpr) {
 	case recv == "*sync.Once" && fn.Name() == "Do":
 		helper = "OnceDo"
 		report.OnceSites++
+	case recv == "*sync.Pool" && fn.Name() == "Get":
+		helper = "PoolGet"
+		report.PoolSites++
+	case recv == "*sync.Pool" && fn.Name() == "Put":
+		helper = "PoolPut"
+		report.PoolSites++
 	default:
 		return
 	}
